@@ -108,9 +108,19 @@ func cmdCheck(property string, args []string) int {
 			bounds[kv[0]], _ = strconv.Atoi(kv[1])
 		case "--no-evidence":
 			noEvidence = true
+		case "--budget":
+			i++
+			d, err := time.ParseDuration(args[i])
+			if err != nil {
+				usage()
+			}
+			harnessBudget = d
 		default:
 			usage()
 		}
+	}
+	if tier == "thorough" && harnessBudget == 15*time.Minute {
+		harnessBudget = 90 * time.Minute
 	}
 	seed, _ := strconv.ParseInt(os.Getenv("VERIF_SEED"), 10, 64)
 	t0 := time.Now()
